@@ -111,6 +111,11 @@ package plugin
 
 //@ pred rsvalid(s) := len(s.Args) >= 2 && atoiok(s.Args[0]) && atoi(s.Args[0]) == 0
 
+//@ func (*Recipient).Wrap(r, fileKey) (stanzas, err)
+//@   requires r.ui != nil
+//@   call WrapWithLabels#1 requires arg0 == r && same(arg1, fileKey)                                                               [C16]
+//@   ensures#nil err != nil ==> stanzas == nil                                                                                    [C14 C16]
+
 //@ func (*Recipient).WrapWithLabels(r, fileKey) (stanzas, labels, err)
 //@   requires r.ui != nil
 //@   call openClientConnection#1 requires arg0 == r.name && arg1 == "recipient-v1"                                                 [C16 C17]
@@ -178,3 +183,7 @@ package plugin
 //@ func (*Recipient).WrapWithLabels$1()
 //@   call fmt.Errorf#1 requires arg0 == "%s plugin: %w" && len(arg1) == 2                                    [C16]
 //@   ensures#nil old(err) == nil <==> err == nil                                                             [C16]
+
+// ---- C14: zero-annotation no-panic sweep
+//@ func EncodeX25519Recipient(pk) (s, err)
+//@   ensures#nil err != nil ==> s == ""                                                                            [C09 C14]
